@@ -303,7 +303,7 @@ fn refused_statement(rep: &mut Report, k: u64) {
 
 pub fn check(ctx: &Ctx, rep: &mut Report) {
     let fx = Fixture::new();
-    let total = ctx.size(5_000, 640_000) / ctx.nshards;
+    let total = ctx.size(15_000, 640_000) / ctx.nshards;
     for k in 0..total {
         if ctx.wants(k) && (k % 5 == 2 || ctx.replay.is_some()) {
             refused_statement(rep, k / 5);
